@@ -296,7 +296,7 @@ class StateMachine(object):
 			self.message.body.mimetype = self.message.headers.element('Content-Type')
 
 	def set_content_length(self) -> None:
-		if 'Content-Length' not in self.message.headers:
+		if self.chunked or 'Content-Length' not in self.message.headers:
 			self.message.headers['Content-Length'] = str(len(self.message.body)).encode('ASCII')
 		if self.chunked:
 			self.message.headers.pop('Transfer-Encoding')  # FIXME: there could be other transfer codings as well, only pop out chunked!
